@@ -62,6 +62,8 @@ fn judge(name: &str, before: &StateSpec, unfired: bool, why: &str) -> CaseResult
 
 /// `live_pair`: (origin ordinal, destination ordinal) of the top graph whose REAL ids are put on
 /// the INTEGER stack after building (second = origin, top = destination)
+const UNKNOWN_ID: i32 = 2_000_000_000;
+
 fn judge_live(name: &str, before: &StateSpec, unfired: bool, why: &str, live_pair: Option<(usize, usize)>) -> CaseResult {
     let fp = match footprint::get(name) {
         Some(f) => f,
@@ -75,14 +77,16 @@ fn judge_live(name: &str, before: &StateSpec, unfired: bool, why: &str, live_pai
         Some((o, d)) => {
             let (mut st, idmaps) = s.build();
             if let Some(ids) = idmaps.first() {
-                if o < ids.len() && d < ids.len() && st.int_stack.size() >= 2 {
-                    *st.int_stack.get_mut(0).unwrap() = ids[d] as i32;
-                    *st.int_stack.get_mut(1).unwrap() = ids[o] as i32;
+                // usize::MAX stands for an id that names no node
+                let real = |k: usize| if k == usize::MAX { Some(UNKNOWN_ID) } else { ids.get(k).map(|x| *x as i32) };
+                if let (Some(rd), Some(ro), true) = (real(d), real(o), st.int_stack.size() >= 2) {
+                    *st.int_stack.get_mut(0).unwrap() = rd;
+                    *st.int_stack.get_mut(1).unwrap() = ro;
                 }
             }
             // the "before" picture in ordinal ids: ordinals stand for the live ids
-            s.ints[0] = d as i32;
-            s.ints[1] = o as i32;
+            s.ints[0] = if d == usize::MAX { UNKNOWN_ID } else { d as i32 };
+            s.ints[1] = if o == usize::MAX { UNKNOWN_ID } else { o as i32 };
             let r = guarded(|| crate::exec::with_machine(|m| m.step_named(&mut st, name)));
             r.map(|_| {
                 let mut snap = StateSpec::snapshot(&st);
@@ -173,7 +177,16 @@ fn guard_cases(name: &str, s: &StateSpec) -> Vec<(StateSpec, &'static str)> {
             push(&|c| { if !c.floats.is_empty() { c.floats[0] = 0.0 } }, "zero divisor");
             push(&|c| { if !c.floats.is_empty() { c.floats[0] = -0.0 } }, "zero divisor");
         }
-        "FLOATVECTOR./" => push(&|c| { if c.fvecs.len() >= 2 && !c.ints.is_empty() { c.ints[0] = 0; c.fvecs[0] = vec![0.0, 1.0]; c.fvecs[1] = vec![2.0, 3.0, 4.0]; } }, "zero divisor in the overlap"),
+        "FLOATVECTOR./" => {
+            push(&|c| { if c.fvecs.len() >= 2 && !c.ints.is_empty() { c.ints[0] = 0; c.fvecs[0] = vec![0.0, 1.0]; c.fvecs[1] = vec![2.0, 3.0, 4.0]; } }, "zero divisor in the overlap");
+            // the zero divisor faces a zero dividend (0/0), the other positions are harmless
+            push(&|c| { if c.fvecs.len() >= 2 && !c.ints.is_empty() { c.ints[0] = 0; c.fvecs[0] = vec![0.0, 2.0]; c.fvecs[1] = vec![0.0, 4.0, 1.0]; } }, "zero divisor facing a zero dividend");
+            push(&|c| { if c.fvecs.len() >= 2 && !c.ints.is_empty() { c.ints[0] = 0; c.fvecs[0] = vec![2.0, -0.0]; c.fvecs[1] = vec![6.0, 0.0]; } }, "negative-zero divisor facing a zero dividend");
+            push(&|c| { if c.fvecs.len() >= 2 && !c.ints.is_empty() { c.ints[0] = 0; c.fvecs[0] = vec![0.0]; c.fvecs[1] = vec![-0.0]; } }, "zero divisor facing a negative-zero dividend");
+            for ofs in [0, 1] {
+                push(&|c| { if c.fvecs.len() >= 2 && !c.ints.is_empty() { c.ints[0] = ofs; c.fvecs[0] = vec![0.0, 0.0]; c.fvecs[1] = vec![0.0, 0.0, 0.0]; } }, "all-zero divisor over an all-zero dividend");
+            }
+        }
         n if n.ends_with(".ONES") || n.ends_with(".ZEROS") => {
             push(&|c| { if !c.ints.is_empty() { c.ints[0] = -1 } }, "size < 0");
             push(&|c| { if !c.ints.is_empty() { c.ints[0] = i32::MIN } }, "size < 0");
@@ -412,6 +425,26 @@ pub fn run(ctx: &Ctx) -> PropReport {
                                 match judge_live(&name, &s, true, "guard: no edge between two live nodes", Some(pp)) {
                                     Ok(o) => rep.record_only(&o),
                                     Err(f) => rep.fail(ctx, f, json!({"instruction": name, "unfired": true, "why": "guard: no edge between two live nodes", "live_pair": [pp.0, pp.1], "state": s.to_json(), "brief": s.brief()})),
+                                }
+                            }
+                        }
+                    }
+                    // one live id (of a node that already has edges) and one id that names no node:
+                    // the guard "both nodes exist" fails whatever the live node's edge lists hold
+                    if name == "GRAPH.EDGE*ADD" || name == "GRAPH.EDGE*SETWEIGHT" || name == "GRAPH.EDGE*GETWEIGHT" {
+                        if let (Some(g), true) = (s.graphs.first(), s.ints.len() >= 2) {
+                            let mut pairs: Vec<(usize, usize)> = vec![];
+                            if let Some(e) = g.edges.first() {
+                                // destination / origin of an existing edge, in both operand positions
+                                pairs.extend([(usize::MAX, e.1), (e.1, usize::MAX), (usize::MAX, e.0), (e.0, usize::MAX)]);
+                            } else if !g.nodes.is_empty() {
+                                pairs.extend([(usize::MAX, 0), (0, usize::MAX)]);
+                            }
+                            for pp in pairs {
+                                rep.evaluations += 1;
+                                match judge_live(&name, &s, true, "guard: one live and one unknown node id", Some(pp)) {
+                                    Ok(o) => rep.record_only(&o),
+                                    Err(f) => rep.fail(ctx, f, json!({"instruction": name, "unfired": true, "why": "guard: one live and one unknown node id", "live_pair": [pp.0 as u64, pp.1 as u64], "state": s.to_json(), "brief": s.brief()})),
                                 }
                             }
                         }
